@@ -292,3 +292,10 @@ def compare_time(mvals, rtime):
             if not all(close(y, x) for x, y in zip(a, b)):
                 return [{"what": nm + " differs from the declared partition", "model": a, "rockit": b, "point": p}]
     return []
+
+
+def model_coeffs(taus, name="coeffs"):
+    """C, D, B of the model for each list of collocation points (exact rationals of the floats)"""
+    body = "".join("Eval vm_compute in (run_coeffs_float %s).\n" % CS.cqlist(t) for t in taus)
+    res = coqrun.run_shards(name, [body])
+    return res[0]
